@@ -13,20 +13,34 @@ func UnmarshalSelectionSet(b []byte) (SelectionSet, error) {
 
 	result := make([]Selection, 0)
 	for _, item := range tmp {
-		var field Field
-		if err := json.Unmarshal(item, &field); err == nil {
-			result = append(result, &field)
-			continue
+		// The three selection kinds are told apart by the keys only they have;
+		// trying the decoders in turn does not work because each of them
+		// accepts any JSON object.
+		var keys map[string]json.RawMessage
+		if err := json.Unmarshal(item, &keys); err != nil {
+			return nil, err
 		}
-		var fragmentSpread FragmentSpread
-		if err := json.Unmarshal(item, &fragmentSpread); err == nil {
-			result = append(result, &fragmentSpread)
-			continue
-		}
-		var inlineFragment InlineFragment
-		if err := json.Unmarshal(item, &inlineFragment); err == nil {
+		_, isInlineFragment := keys["TypeCondition"]
+		_, isField := keys["Alias"]
+		switch {
+		case isInlineFragment:
+			var inlineFragment InlineFragment
+			if err := json.Unmarshal(item, &inlineFragment); err != nil {
+				return nil, err
+			}
 			result = append(result, &inlineFragment)
-			continue
+		case isField:
+			var field Field
+			if err := json.Unmarshal(item, &field); err != nil {
+				return nil, err
+			}
+			result = append(result, &field)
+		default:
+			var fragmentSpread FragmentSpread
+			if err := json.Unmarshal(item, &fragmentSpread); err != nil {
+				return nil, err
+			}
+			result = append(result, &fragmentSpread)
 		}
 	}
 
